@@ -3,8 +3,9 @@
 
    An environment <<ca, tz>> (which CA the certstore was loaded with, the process time zone in hours) is the initial
    condition; then up to MaxConns client connections share one certstore.  A connection is a record
-     [sni, local, addr, upcn, upsans, upopt, icls]   (tokens, "none" = absent; upsans a sequence; upopt = the
-     upstream_cert option; icls = class of the requested identity, carried through for the witnesses only)
+     [sni, local, addr, upcn, upsans, uporg, upopt, icls]   (tokens, "none" = absent; upsans a sequence; uporg = the
+     upstream certificate has an organization; upopt = the upstream_cert option; icls = class of the requested
+     identity, carried through for the witnesses only)
    Each connection is two critical sections of the real code:
 
      GetCert(c)  mitmproxy/addons/tlsconfig.py  TlsConfig.get_cert: altnames = upstream CN + upstream SANs (if
@@ -14,11 +15,15 @@
      Issue       mitmproxy/certs.py  CertStore.get_cert (cache keyed by (cn, sans); a hit returns the earlier entry)
                  and dummy_cert: issuer = CA subject, validity = now - 2 d .. now + 197 d with now a NAIVE LOCAL time
                  that cryptography reads as UTC (so both ends move by the zone offset), EKU serverAuth, CN only if
-                 shorter than 64 characters (Long tokens have none), SANs = altnames; then the handshake presents it.
+                 shorter than 64 characters (Long tokens have none), O = upstream organization, SANs = altnames,
+                 marked critical exactly when the CN was left out -- even if O makes the subject non-empty, which a
+                 strict verifier rejects (CritSan); then the handshake presents it.  The cache key ignores O.
    (STORE_CAP eviction is C17's subject and not modelled: MaxConns is far below the capacity.)               *)
 EXTENDS Mon_LeafCert, TLC
 CONSTANTS Envs,      \* set of <<ca, tz>>
-          Conns,     \* connections that may come first
+          MainEnv,   \* the environment in which every connection of Conns is tried first
+          Conns,     \* connections that may come first (in MainEnv)
+          ConnsAlt,  \* subset of Conns tried first in the other environments
           Conns2,    \* connections that may follow
           MaxConns,
           Long,      \* tokens whose text is >= 64 characters
@@ -26,8 +31,8 @@ CONSTANTS Envs,      \* set of <<ca, tz>>
 VARIABLES env, pc, cur, store, n, mon, obs
 vars == <<env, pc, cur, store, n, mon, obs>>
 
-NoCur == [c |-> [sni |-> "none", local |-> "none", addr |-> "none", upcn |-> "none", upsans |-> <<>>, upopt |-> FALSE,
-                 icls |-> "none"],
+NoCur == [c |-> [sni |-> "none", local |-> "none", addr |-> "none", upcn |-> "none", upsans |-> <<>>, uporg |-> FALSE,
+                 upopt |-> FALSE, icls |-> "none"],
           cn |-> "none", alt |-> <<>>]
 
 Init == /\ env \in Envs /\ pc = "idle" /\ cur = NoCur /\ store = {} /\ n = 0
@@ -50,7 +55,7 @@ Encoded(c) == (IF c.upopt THEN Opt(c.upcn) ELSE <<>>) \o <<Ident(c)>> \o Opt(c.a
 Raises(c) == \E i \in 1..Len(Encoded(c)) : Encoded(c)[i] \in BadIdna
 RaiseSrc(c) == IF c.upopt /\ c.upcn \in BadIdna THEN "upstream_cn" ELSE "other"
 
-Pool == IF n = 0 THEN Conns ELSE Conns2
+Pool == IF n = 0 THEN (IF env = MainEnv THEN Conns ELSE ConnsAlt) ELSE Conns2
 GetCert(c) ==
   /\ Live /\ pc = "idle" /\ n < MaxConns /\ c \in Pool
   /\ n' = n + 1 /\ UNCHANGED <<env, store>>
@@ -61,17 +66,23 @@ GetCert(c) ==
             /\ cur' = [c |-> c, cn |-> AltNames(c)[1], alt |-> AltNames(c)]
             /\ Emit(<<>>)
 
+\* store: set of <<key, org>>: what was generated for a key (the first request decides the organization)
+Cached(key) == \E e \in store : e[1] = key
+OrgOf(key) == (CHOOSE e \in store : e[1] = key)[2]
+CritSan == "san_critical_with_subject"
 Issue ==
   /\ Live /\ pc = "issue"
   /\ LET c == cur.c
          key == <<cur.cn, cur.alt>>
          tz == env[2]
-     IN /\ store' = store \cup {key}
+         org == IF Cached(key) THEN OrgOf(key) ELSE (c.upopt /\ c.uporg)
+     IN /\ store' = IF Cached(key) THEN store ELSE store \cup {<<key, org>>}
         /\ Emit(<<[k |-> "leaf", ident |-> Ident(c),
                    allowed |-> Dedup(<<Ident(c)>> \o Opt(c.addr) \o UpNames(c), {}),
                    names |-> (IF cur.cn \in Long THEN <<>> ELSE <<cur.cn>>) \o cur.alt,
                    issuer_ok |-> TRUE, nb |-> (tz - 48) * 3600, na |-> (tz - 48 + 199 * 24) * 3600,
-                   eku_server |-> TRUE, verify |-> "ok", fresh |-> key \notin store,
+                   eku_server |-> TRUE, verify |-> IF cur.cn \in Long /\ org THEN CritSan ELSE "ok",
+                   fresh |-> ~Cached(key),
                    icls |-> c.icls, ca |-> env[1]]>>)
   /\ pc' = "idle" /\ cur' = NoCur /\ UNCHANGED <<env, n>>
 
